@@ -43,6 +43,17 @@ DRIVERS = {
         "codemod": "pixee:python/harden-pickle-load",
         "files": {"a/mod.py": PICKLE, "b/plain.py": b"import os\n\nprint(os.getcwd())\n", "c/bad.py": BAD},
     },
+    # plugin-style SAST codemods on the regex and XML pipelines: every line / element matches, the findings differ per file
+    "regex-plugin": {
+        "plugin": "regex",
+        "files": {f"t/page_{i}.html": "".join(f'<a href="http://e.org/{i}/{n}">x</a>\n' for n in range(1, 5)).encode() for i in range(3)},
+        "findings": {"t/page_0.html": [1], "t/page_1.html": [3], "t/page_2.html": [2, 4]},
+    },
+    "xml-plugin": {
+        "plugin": "xml",
+        "files": {f"c/web_{i}.xml": ("<cfg>\n" + "".join(f'<item a="1" n="{i}{n}"/>\n' for n in range(1, 4)) + "</cfg>\n").encode() for i in range(3)},
+        "findings": {"c/web_0.xml": [2], "c/web_1.xml": [3], "c/web_2.xml": [2, 4]},
+    },
     "four-tasks": {
         "codemod": "pixee:python/harden-pickle-load",
         "files": {"a/mod.py": PICKLE, "b/mod.py": PICKLE, "c/bad.py": BAD, "d/mod.py": PICKLE, "requirements.txt": b"requests\n"},
@@ -60,6 +71,8 @@ LINE_MODULES = (
     "codemodder.codemods.base_transformer",
     "codemodder.dependency",
     "codemodder.utils.timer",
+    "codemodder.codemods.regex_transformer",
+    "codemodder.codemods.xml_transformer",
 )
 _LINES = {"n": 0}
 
@@ -140,8 +153,59 @@ def install_seams():
         "schedule_remove_import": _wrap(lt.RemoveImportsVisitor, "remove_unused_import_by_node", "schedule_remove_import", after=True),
         "nested_codemod_pass": _wrap(__import__("libcst.codemod", fromlist=["Codemod"]).Codemod, "transform_module", "codemod_pass", after=True),
     }
+    import codemodder.codemods.regex_transformer as rt
+    import codemodder.codemods.xml_transformer as xt
+
+    got["regex.apply"] = _wrap(rt.RegexTransformerPipeline, "apply", "regex.apply", after=True)
+    got["sast_regex.apply"] = _wrap(rt.SastRegexTransformerPipeline, "apply", "sast_regex.apply", after=True)
+    got["xml.apply"] = _wrap(xt.XMLTransformerPipeline, "apply", "xml.apply", after=True)
     _SEAMS.append(got)
     return _SEAMS
+
+
+def _plugin_codemod(spec, sarif_path):
+    """A plugin-style remediation codemod on the regex / XML pipeline, as a third party would write it."""
+    import functools
+
+    from codemodder.codemods.api import Metadata, RemediationCodemod, ReviewGuidance
+    from codemodder.codemods.base_detector import BaseDetector
+    from codemodder.codemods.regex_transformer import SastRegexTransformerPipeline
+    from codemodder.codemods.xml_transformer import ElementAttributeXMLTransformer, XMLTransformerPipeline
+    from codemodder.semgrep import SemgrepResultSet
+
+    class SarifDetector(BaseDetector):
+        def apply(self, codemod_id, context):
+            return SemgrepResultSet.from_sarif(sarif_path)
+
+    class PluginCodemod(RemediationCodemod):
+        @property
+        def origin(self):
+            return "acme"
+
+        @property
+        def docs_module_path(self):
+            return "acme.docs"
+
+    if spec["plugin"] == "regex":
+        transformer = SastRegexTransformerPipeline(pattern=r"http://", replacement="https://", change_description="Use https")
+        ext = [".html"]
+    else:
+        transformer = XMLTransformerPipeline(functools.partial(ElementAttributeXMLTransformer, name_attributes_map={"item": {"a": "9"}}))
+        ext = [".xml"]
+    return PluginCodemod(
+        metadata=Metadata(name="plugin-" + spec["plugin"], summary="plugin", review_guidance=ReviewGuidance.MERGE_WITHOUT_REVIEW, description="plugin codemod"),
+        detector=SarifDetector(), transformer=transformer, default_extensions=ext, requested_rules=["acme-rule"],
+    )
+
+
+def _plugin_sarif(spec):
+    results = []
+    for path, lines in spec["findings"].items():
+        for line in lines:
+            results.append({"ruleId": "acme-rule", "message": {"text": "m"}, "fingerprints": {"matchBasedId/v1": f"{path}-{line}"},
+                            "locations": [{"physicalLocation": {"artifactLocation": {"uri": path, "uriBaseId": "%SRCROOT%"},
+                                                                "region": {"startLine": line, "endLine": line, "startColumn": 1, "endColumn": 40, "snippet": {"text": "x"}}}}]})
+    return json.dumps({"version": "2.1.0", "runs": [{"tool": {"driver": {"name": "Semgrep OSS", "rules": []}}, "results": results}]}).encode()
 
 
 def _state(driver):
@@ -156,7 +220,7 @@ def _state(driver):
     spec = DRIVERS[driver]
     root = core.scratch_root() / f"sched-{driver}"
     reg = registry.load_registered_codemods()
-    codemod = next(c for c in reg.codemods if c.id == spec["codemod"])
+    codemod = None if spec.get("plugin") else next(c for c in reg.codemods if c.id == spec["codemod"])
     memo = {}
     raw_run = getattr(cs.semgrep_run, "__wrapped__", cs.semgrep_run)
 
@@ -189,8 +253,14 @@ def run_once(driver, prefix, gran="coarse", workers=None):
     if spec.get("sonar"):
         (resd / "h.json").write_bytes(_sonar(spec["sonar"]))
         tool_map = {"sonar": [str(resd / "h.json")]}
+    codemod = st["codemod"]
+    include = []
+    if spec.get("plugin"):
+        (resd / "plugin.sarif").write_bytes(_plugin_sarif(spec))
+        codemod = _plugin_codemod(spec, resd / "plugin.sarif")
+        include = ["*.html", "*.xml"]
     drive.reset_caches()
-    n_tasks = sum(1 for f in spec["files"] if f.endswith(".py"))
+    n_tasks = sum(1 for f in spec["files"] if f.endswith((".py", ".html", ".xml")))
     w = workers or n_tasks
     if gran == "line":
         install_lines()
@@ -201,11 +271,11 @@ def run_once(driver, prefix, gran="coarse", workers=None):
     _CUR[0] = s
     try:
         repo_manager = PythonRepoManager(proj)
-        context = CodemodExecutionContext(proj, False, False, st["reg"], st["providers"], repo_manager, [], [], tool_map, w)
+        context = CodemodExecutionContext(proj, False, False, st["reg"], st["providers"], repo_manager, include, [], tool_map, w)
         repo_manager.parse_project()
-        st["codemod"].apply(context)
-        context.process_dependencies(st["codemod"].id)
-        results = context.compile_results([st["codemod"]])
+        codemod.apply(context)
+        context.process_dependencies(codemod.id)
+        results = context.compile_results([codemod])
     finally:
         _CUR[0] = None
         bc.ThreadPoolExecutor = real_tpe
